@@ -331,6 +331,31 @@ prop('C08',
               'ordering between protocols and the manager (cross-task)'],
      )
 
+prop('C12',
+     explanation='Bounded symbolic execution of the real per-stream notification task (notification::Connection::start and its Stream::poll_next, '
+                 'including the tokio::select! over the two send queues, PollSender reservation towards the user, the shutdown oneshot) together with the '
+                 'user-side NotificationSink, between two real Substreams over scripted carriers; the wire and the user channel are compared with a ledger '
+                 'of accepted / sent notifications after every step.',
+     units=[
+         dict(harness='c12_notification_stream', covers=['c12.sync.accepted', 'c12.sync.clogged', 'c12.async.accepted', 'c12.async.waits', 'c12.async.accepted-after-waiting',
+                                                         'c12.user.received', 'c12.task-finished', 'c12.closed', 'c12.open', 'c12.shutdown-requested'],
+              min_paths=1000, split={'quick': 6, 'thorough': 7},
+              params={'quick': {'steps': 3, 'write_budget': 1, 'read_budget': 1}, 'thorough': {'steps': 4, 'write_budget': 2, 'read_budget': 2}},
+              conform={'quick': 100, 'thorough': 1000}, nvals=40),
+         dict(harness='c12_notification_stream', name='c12_notification_stream_big', covers=['c12.sync.accepted', 'c12.async.accepted', 'c12.open'],
+              min_paths=100, split={'quick': 5, 'thorough': 6},
+              params={'quick': {'steps': 3, 'write_budget': 2, 'read_budget': 0, 'big': 1}, 'thorough': {'steps': 4, 'write_budget': 3, 'read_budget': 0, 'big': 1}},
+              conform={'quick': 20, 'thorough': 100}, nvals=30),
+     ],
+     assumptions=['one sending mode per run (the property speaks of order within one mode; the tokio::select! branch order between the two send queues is fixed per run)',
+                  'tokio mpsc / oneshot / PollSender modelled as bounded FIFOs with reservation; sender reference counts are not modelled (the sink lives as long as the run)',
+                  'the executor polls the task and the user reads whenever the schedule says so; after the scripted steps a quiet tail of 12 polls/reads lets the stream settle'],
+     bounds={'notifications sent': 'quick <= 3, thorough <= 4 of 1..2 bytes; in the `big` unit of 70000/70001 bytes (above the sink\'s 64 KiB back-pressure boundary), no inbound traffic', 'inbound': '0 or 2 frames, optionally followed by one frame beyond the maximum (3 bytes), remote closes or stays idle',
+             'send queue': '1..2 slots', 'user queue': '1..2 slots', 'carrier': 'write_budget / read_budget scripted answers (Pending / 1 byte / all; flush Pending), then ideal'},
+     outside=['the notification protocol state machine that opens / validates / closes streams (C11)', 'delivery across the network: yamux windows, the remote endpoint\'s task',
+              'reopen cycles (each open period has its own Connection task)', 'maximum notification size beyond the codec limit check on the inbound side (C04 covers the codec)'],
+     )
+
 prop('C02',
      explanation='Bounded model checking of the real NoiseSocket poll_read / poll_write / poll_flush (frame length arithmetic, read-ahead buffer, '
                  'write buffer, 0/1-byte carry-over) between two ends of an established session over an in-memory link with scripted '
